@@ -604,8 +604,8 @@ func genC11(tier string, seed int64) []core.Case {
 	nrt, nst, nrace := 500, 8, 6
 	rounds, raceRounds := int64(300), int64(12)
 	if tier == "thorough" {
-		nrt, nst, nrace = 20000, 64, 48
-		rounds, raceRounds = 1000, 40
+		nrt, nst, nrace = 8000, 32, 24
+		rounds, raceRounds = 600, 30
 	}
 	r := rand.New(rand.NewSource(seed*49979687 + 11))
 	var cs []core.Case
